@@ -31,6 +31,18 @@ class Capture(io.StringIO):
         return False
 
 
+class TerminalLikeCapture(Capture):
+    """A capture stream that reports a file descriptor, so that StatusWriter takes the path it takes on the real
+    stdout / stderr of a process (line buffering through tqdm.write) instead of writing through."""
+
+    def __init__(self, fd):
+        super().__init__()
+        self._fd = fd
+
+    def fileno(self):
+        return self._fd
+
+
 _colorama_pinned = False
 
 
@@ -62,14 +74,15 @@ class Outcome:
         return (self.rc, self.out, self.exc)
 
 
-def run_main(argv, stdin_text=None):
-    """Call graphtage.__main__.main(['graphtage'] + argv) in this process; returns an Outcome."""
+def run_main(argv, stdin_text=None, like_a_process=False):
+    """Call graphtage.__main__.main(['graphtage'] + argv) in this process; returns an Outcome.
+    like_a_process: the capture streams report distinct file descriptors, as the standard streams of a process do."""
     import graphtage.printer as gp
     from graphtage import __main__ as gmain
     from mc.script import site_of
     pin_colorama()
     o = Outcome()
-    out, err = Capture(), Capture()
+    out, err = (TerminalLikeCapture(1001), TerminalLikeCapture(1002)) if like_a_process else (Capture(), Capture())
     saved = (sys.stdout, sys.stderr, sys.stdin, gp.DEFAULT_PRINTER)
     root = logging.getLogger()
     saved_handlers = list(root.handlers)
